@@ -21,6 +21,7 @@ warnings.filterwarnings("ignore")
 
 from langchain.callbacks.manager import AsyncCallbackManagerForLLMRun, CallbackManagerForLLMRun  # noqa: E402
 from langchain.llms.base import LLM  # noqa: E402
+from langchain_core.outputs import GenerationChunk  # noqa: E402
 
 from nemoguardrails import LLMRails, RailsConfig  # noqa: E402
 from nemoguardrails.context import llm_call_info_var  # noqa: E402
@@ -76,6 +77,7 @@ class ScriptedLLM(LLM):
     temperature: float = 0.5
     max_tokens: int = 100
     model_kwargs: dict = {}
+    streaming: bool = False     # True: the answer is also delivered token by token through the run manager
 
     class Config:
         arbitrary_types_allowed = True
@@ -114,6 +116,11 @@ class ScriptedLLM(LLM):
         if asyncio.iscoroutine(r) or isinstance(r, asyncio.Future):
             r = await r
         rec["answer"] = r
+        if self.streaming and run_manager is not None:
+            words = str(r).split(" ")
+            for j, wd in enumerate(words):
+                tok = wd + (" " if j < len(words) - 1 else "")
+                await run_manager.on_llm_new_token(token=tok, chunk=GenerationChunk(text=tok))  # as langchain's _astream does
         return r
 
     @property
